@@ -73,6 +73,14 @@ static int include_next_idx;
 static Token *preprocess2(Token *tok);
 static Macro *find_macro(Token *tok);
 
+static bool is_hash(Token *tok);
+
+// `#`-only line is legal. It's called a null directive. The token
+// after it belongs to the next line and is not a directive name.
+static bool is_null_directive(Token *tok) {
+  return is_hash(tok) && tok->next->at_bol;
+}
+
 static bool is_hash(Token *tok) {
   // A '#' produced by macro expansion never starts a directive
   // [https://www.sigbus.info/n1570#6.10.3.4p3].
@@ -165,6 +173,10 @@ static Token *append(Token *tok1, Token *tok2) {
 
 static Token *skip_cond_incl2(Token *tok) {
   while (tok->kind != TK_EOF) {
+    if (is_null_directive(tok)) {
+      tok = tok->next;
+      continue;
+    }
     if (is_hash(tok) &&
         (equal(tok->next, "if") || equal(tok->next, "ifdef") ||
          equal(tok->next, "ifndef"))) {
@@ -182,6 +194,10 @@ static Token *skip_cond_incl2(Token *tok) {
 // Nested `#if` and `#endif` are skipped.
 static Token *skip_cond_incl(Token *tok) {
   while (tok->kind != TK_EOF) {
+    if (is_null_directive(tok)) {
+      tok = tok->next;
+      continue;
+    }
     if (is_hash(tok) &&
         (equal(tok->next, "if") || equal(tok->next, "ifdef") ||
          equal(tok->next, "ifndef"))) {
@@ -783,7 +799,7 @@ static char *read_include_filename(Token **rest, Token *tok, bool *is_dquote) {
 //   #endif
 static char *detect_include_guard(Token *tok) {
   // Detect the first two lines.
-  if (!is_hash(tok) || !equal(tok->next, "ifndef"))
+  if (!is_hash(tok) || is_null_directive(tok) || !equal(tok->next, "ifndef"))
     return NULL;
   tok = tok->next->next;
 
@@ -793,7 +809,8 @@ static char *detect_include_guard(Token *tok) {
   char *macro = strndup(tok->loc, tok->len);
   tok = tok->next;
 
-  if (!is_hash(tok) || !equal(tok->next, "define") || !equal(tok->next->next, macro))
+  if (!is_hash(tok) || is_null_directive(tok) ||
+      !equal(tok->next, "define") || !equal(tok->next->next, macro))
     return NULL;
 
   // Read until the end of the file. The #endif that closes the
@@ -802,7 +819,7 @@ static char *detect_include_guard(Token *tok) {
   int depth = 1;
 
   while (tok->kind != TK_EOF) {
-    if (!is_hash(tok)) {
+    if (!is_hash(tok) || is_null_directive(tok)) {
       tok = tok->next;
       continue;
     }
@@ -884,6 +901,10 @@ static Token *preprocess2(Token *tok) {
 
     Token *start = tok;
     tok = tok->next;
+
+    // `#`-only line is legal. It's called a null directive.
+    if (tok->at_bol)
+      continue;
 
     if (equal(tok, "include")) {
       bool is_dquote;
@@ -1006,10 +1027,6 @@ static Token *preprocess2(Token *tok) {
 
     if (equal(tok, "error"))
       error_tok(tok, "error");
-
-    // `#`-only line is legal. It's called a null directive.
-    if (tok->at_bol)
-      continue;
 
     error_tok(tok, "invalid preprocessor directive");
   }
